@@ -81,13 +81,21 @@ def gen_case(backend, rnd, nmsg, nops, concurrent):
     dead = []
     ts = [100]
 
+    nwrites = [0]
+
     def wr(tid=1):
-        k = len(run.ids) + len(dead) * 0 + 1
+        nwrites[0] += 1
+        k = nwrites[0]
         nr = rnd.randint(1, 4)
         ts[0] += 1
         r = run.op(tid, 'write', {'sender': k, 'content': k, 'rcpts': list(range(1, nr + 1)), 'ts': ts[0]})
         if r['ok']:
             live[r['v']] = [nr, False]
+
+    def write_burst():
+        # overlapping writes (distinct timestamps) from two greenlets
+        gs = [gevent.spawn(lambda t=t: [wr(t) for _ in range(rnd.randint(1, 2))]) for t in (1, 2)]
+        gevent.joinall(gs)
 
     def mut_op(tid, i):
         choice = rnd.choice(['set_timestamp', 'increment_attempts', 'increment_attempts', 'set_recipients_delivered', 'get', 'remove', 'get'])
@@ -110,6 +118,8 @@ def gen_case(backend, rnd, nmsg, nops, concurrent):
             return run.op(tid, 'remove', {'id': i})
         return run.op(tid, choice, {'id': i})
 
+    if concurrent:
+        write_burst()
     for _ in range(nmsg):
         wr()
     steps = 0
@@ -138,7 +148,10 @@ def gen_case(backend, rnd, nmsg, nops, concurrent):
         if r < 0.25:
             run.op(1, 'load', {})
         elif r < 0.4:
-            wr()
+            if concurrent and rnd.random() < 0.5:
+                write_burst()
+            else:
+                wr()
     run.op(1, 'load', {})
     for i in sorted(live) + dead:
         run.op(1, 'get', {'id': i})
